@@ -147,7 +147,7 @@ def r3_polarity(ctx):
                 ctx.check(k == want and elects_on_true, f, n, "elected iff tally >= threshold", k,
                           f"comparison normalises to `{k}`; documented: elected iff `{want}` (true branch must be the electing one: {elects_on_true})")
     if sites == 0:
-        ctx.violated(None, None, "no tally/threshold comparison found in STV", "the election test vanished")
+        ctx.vanished("no tally/threshold comparison found in STV" + ": " + "the election test vanished")
     # the simultaneous loop elects a prefix of the high-to-low ranking and stops at the first failure
     f = prog.find_func("STV._simultaneous_elect_step")
     loops = [n for n in astx.walk_own(f.node) if isinstance(n, ast.For) and any(isinstance(x, ast.Break) for x in ast.walk(n))]
